@@ -23,6 +23,7 @@ import (
 //verif:stub crypto/sha256.Sum256 stubSum256
 //verif:stub (*net/http.Transport).Clone stubTransportClone
 //verif:stub (*net/http.Client).Post stubClientPost
+//verif:stub crypto/tls.NewLRUClientSessionCache stubSessionCache
 
 var (
 	stubDecodeLen  int  // length of the decoded fingerprint
@@ -73,6 +74,12 @@ func stubSum256(b []byte) [32]byte {
 	return h
 }
 
+type nullSessionCache struct{}
+
+func (nullSessionCache) Get(k string) (*tls.ClientSessionState, bool) { return nil, false }
+func (nullSessionCache) Put(k string, s *tls.ClientSessionState)      {}
+func stubSessionCache(n int) tls.ClientSessionCache                  { return nullSessionCache{} }
+
 func stubTransportClone(t *http.Transport) *http.Transport { return &http.Transport{} }
 
 func stubClientPost(c *http.Client, url, contentType string, body io.Reader) (*http.Response, error) {
@@ -104,7 +111,8 @@ func HarnessC13Verifier() {
 		verifReach("C13.ctor-refused")
 		return
 	}
-	var cs tls.ConnectionState
+	// every other attribute of the connection is arbitrary: the decision may depend on the chain only
+	cs := tls.ConnectionState{DidResume: nondetBool(), HandshakeComplete: nondetBool(), Version: uint16(nondetUint32()), NegotiatedProtocol: nondetString(1), ServerName: nondetString(1)}
 	for i := 0; i < chain; i++ {
 		cs.PeerCertificates = append(cs.PeerCertificates, &x509.Certificate{})
 	}
